@@ -48,6 +48,7 @@ class DummyAWG(AWG):
 
     def clear(self) -> None:
         self._programs = {}
+        self._armed = None
 
     def arm(self, name: str) -> None:
         self._armed = name
